@@ -208,7 +208,7 @@ class Gen:
                     self.lines.append(f'{pad}for {i} in xs:')
                 elif r.random() < 0.4:
                     # start / stop / step forms: lengths that are not stop - start
-                    self.lines.append(f'{pad}for {i} in range({r.choice(["0, 7, 3", "1, 6, 2", "2, 5", "0, 5, 5", "3, 3", "1, 8, 3", "0, 4, 1"])}):')
+                    self.lines.append(f'{pad}for {i} in range({r.choice(["0, 7, 3", "1, 6, 2", "2, 5", "0, 5, 5", "1, 8, 3", "0, 4, 1"])}):')
                 else:
                     self.lines.append(f'{pad}for {i} in range({r.choice([1, 2, 3, 4])}):')
                 if r.random() < 0.3:
